@@ -475,6 +475,19 @@ func (e *Env) versionTables() {
 				}
 			}
 		}
+		if len(ps) > 1 {
+			// conveniences added next to the parser (Parse, MustParse, FromLabel): the parser the property names is
+			// the one called Get / get, when there is exactly one such
+			var named []*types.Func
+			for _, g := range ps {
+				if g.Name() == "Get" || g.Name() == "get" {
+					named = append(named, g)
+				}
+			}
+			if len(named) == 1 {
+				ps = named
+			}
+		}
 		if len(ps) != 1 {
 			// several candidates, or none and no GetVersion either: which strings map to which version is not decided here
 			c.Undecided("version-table", who, pos, fmt.Sprintf("expected exactly one func(string) %s to evaluate on the label domain, found %d", x.typ, len(ps)))
